@@ -39,6 +39,19 @@ CHECKS["C13"] = ("proof",
     "machine-checked proof in Coq (position arithmetic theorems) + kernel-evaluated span checker on every real tree + "
     "byte-level model/implementation correspondence", "DESIGN.md §6 C13")
 
+CHECKS["C15"] = ("proof",
+    "Coq theorem lr_no_panic: for every table passing the verified checker safe_b, every input, every fuel, partial "
+    "on/off, the LR runtime model never reaches an out-of-range index / unwrap / split (token level, default lexer). "
+    "safe_b and reduce_acyclic_b are evaluated by the kernel on the real table of every generated grammar; the real "
+    "LRParser (default lexer and custom lexers that ignore the expected set) and the real GlrParser are run on rendered "
+    "and garbage UTF-8 strings under catch_unwind and a watchdog and must return Ok or Err; LR outcomes also equal the "
+    "byte-level model's. Partial: termination is not proved (reduce_acyclic_b is a sufficient per-table condition; hangs "
+    "are observed by the watchdog; the known reduction-cycle hang is a recorded finding); the custom-lexer clause and "
+    "byte-slicing safety are decided by real runs and correspondence, not by a theorem; stack/memory exhaustion cannot "
+    "be exhibited by the model.",
+    "machine-checked proof in Coq (panic-freedom theorem over validated tables) + kernel-evaluated validators on real "
+    "tables + real-runtime exploration under catch_unwind/watchdog", "DESIGN.md §6 C15")
+
 PENDING_REASON = ("not yet claimed: check under construction (DESIGN.md §6 describes the planned theorem, validator and "
                   "correspondence); it is registered only once it runs end to end")
 
